@@ -27,6 +27,14 @@ Definition kkt_dyn_residual (n:nat) (M G:list (list T)) (mask:list bool) (rhs ud
   vsub (vadd (mat_vec M udot) (matT_vec n G (maskv mask lam))) rhs.
 Definition kkt_con_residual (G:list (list T)) (mask:list bool) (b udot:list T) : list T :=
   maskv mask (vsub (mat_vec G udot) b).
+(** ** enable / disable: the Instance-stage flag "constraint is disabled" of one constraint in one State.  It starts at the
+       constraint's default (isDisabledByDefault) and every Constraint::disable(state) / enable(state) /
+       setConstraintIsDisabled(state,c,b) request overwrites it; realizing the state in between does not touch it. *)
+Definition disabled_after (default:bool) (requests:list bool) : bool := fold_left (fun _ r => r) requests default.
+(** the enable mask forward dynamics must use after the request histories of all constraints *)
+Definition mask_after (defaults:list bool) (histories:list (list bool)) : list bool :=
+  map (fun dh => negb (disabled_after (fst dh) (snd dh))) (combine defaults histories).
+
 Definition constraint_power (n:nat) (G:list (list T)) (mask:list bool) (lam u:list T) : T :=
   nopp K (ldot (matT_vec n G (maskv mask lam)) u).
 End M.
